@@ -5,7 +5,7 @@ Open Scope Z_scope.
    dial order, any sequence of updates / connectivity reports / timer events of
    any named MultiEndpoint / RPCs / Close) the model's own trace satisfies the
    monitor. *)
-Theorem C15_holds : forall o fails oracle ops, C15_ok (gtrace o fails oracle ops) = true.
+Theorem C15_holds : forall o fails oracle readys ops, C15_ok (gtrace o fails oracle readys ops) = true.
 Proof. exact C15_holds_proof. Qed.
 Print Assumptions C15_holds.
 
@@ -15,8 +15,8 @@ Theorem route_spec : forall s ctx, spec_route (gobserve s) ctx = groute s ctx.
 Proof. exact spec_route_obs. Qed.
 Print Assumptions route_spec.
 
-Theorem update_pools : forall s o fails oracle s' out,
-  reachable s -> gupdate s o fails oracle = (s', out) -> og_err out = 0 ->
+Theorem update_pools : forall s o fails oracle readys s' out,
+  reachable s -> gupdate s o fails oracle readys = (s', out) -> og_err out = 0 ->
   (forall e, In e (map fst (g_pools s')) <-> In e (mentioned o)) /\ NoDup (map fst (g_pools s')) /\
   (forall e p, In (e, p) (g_pools s') ->
      (In (e, p) (g_pools s) /\ ~ In e (map fst (og_dials out))) \/
@@ -30,8 +30,8 @@ Theorem update_pools : forall s o fails oracle s' out,
 Proof. exact update_pools_proof. Qed.
 Print Assumptions update_pools.
 
-Theorem update_status_synced : forall s o fails oracle s' out,
-  reachable s -> gupdate s o fails oracle = (s', out) -> og_err out = 0 ->
+Theorem update_status_synced : forall s o fails oracle readys s' out,
+  reachable s -> gupdate s o fails oracle readys = (s', out) -> og_err out = 0 ->
   forall n m e p, In (n, m) (g_mes s') -> In e (keys m) -> In (e, p) (g_pools s') ->
     availN m e = p_ready p.
 Proof. exact update_status_synced_proof. Qed.
@@ -57,8 +57,8 @@ Example c15_model_history :
   let o1 := mkGO 1 [(1%N, Some (mkMO [1%N; 2%N] 0 0)); (2%N, Some (mkMO [2%N; 3%N] 0 0))] in
   let o2 := mkGO 2 [(2%N, Some (mkMO [3%N; 2%N] 0 0)); (3%N, Some (mkMO [4%N] 0 0))] in
   let o3 := mkGO 2 [(2%N, Some (mkMO [3%N; 5%N] 0 0))] in
-  let ops := [GReady 2 true; GUpdate o2 [] [4%N]; GReady 3 true; GUpdate o3 [5%N] []; GReady 3 false; GClose] in
-  let tr := gtrace o1 [] [3%N; 1%N; 2%N] ops in
+  let ops := [GReady 2 true; GUpdate o2 [] [4%N] []; GReady 3 true; GUpdate o3 [5%N] [] []; GReady 3 false; GClose] in
+  let tr := gtrace o1 [] [3%N; 1%N; 2%N] [] ops in
   let rt := fun (ev : gevent) (c : option N) =>
       match find (fun cr => ctx_eqb (fst cr) c) (ob_routes (ge_obs ev)) with Some cr => snd cr | None => RPanic end in
   map (fun ev => og_err (ge_out ev)) tr = [0; 0; 0; 0; 3; 0; 0] /\
@@ -77,69 +77,81 @@ Example c15_model_history :
   C15_ok tr = true /\ C16_ok tr = true.
 Proof. vm_compute. repeat split; reflexivity. Qed.
 
+(* a pool that is already READY when DialFunc returns it (readys = [1]) and never
+   changes state afterwards: the status sync of the update itself tells the
+   MultiEndpoint, and routing moves to endpoint 1 *)
+Example c15_model_ready_at_dial :
+  let o1 := mkGO 1 [(1%N, Some (mkMO [2%N] 0 0))] in
+  let o2 := mkGO 1 [(1%N, Some (mkMO [1%N; 2%N] 0 0))] in
+  let tr := gtrace o1 [] [] [] [GReady 2 true; GUpdate o2 [] [] [1%N]] in
+  map (fun ev => map om_cur (ob_mes (ge_obs ev))) tr = [[2%N]; [2%N]; [1%N]] /\
+  map (fun ev => map op_ready (ob_pools (ge_obs ev))) tr = [[false]; [true]; [true; true]] /\
+  C15_ok tr = true.
+Proof. vm_compute. repeat split; reflexivity. Qed.
+
 (* Non-vacuity (b): a trace recorded from the (patched) implementation is accepted ... *)
 Example c15_good_trace : C15_ok
-  [mkGE (GUpdate (mkGO 1%N [(1%N, (Some (mkMO [1%N] (0)%Z (0)%Z))); (2%N, (Some (mkMO [2%N] (0)%Z (0)%Z)))]) [] [2%N; 1%N]) (mkGOut (0)%Z [(2%N, true); (1%N, true)] (0)%Z) (mkGobs [mkOme 1%N 1%N [mkOep 1%N (0)%Z (0)%Z (-1)%Z]; mkOme 2%N 2%N [mkOep 2%N (0)%Z (0)%Z (-1)%Z]] [mkOpool 1%N 1%N true false; mkOpool 2%N 0%N true false] 1%N [(None, RPool 1%N 1%N true); ((Some 0%N), RPool 1%N 1%N true); ((Some 1%N), RPool 1%N 1%N true); ((Some 2%N), RPool 2%N 0%N true); ((Some 3%N), RPool 1%N 1%N true); ((Some 4%N), RPool 1%N 1%N true); ((Some 9%N), RPool 1%N 1%N true)] [0%N; 1%N] (2)%Z)
-   ; mkGE (GUpdate (mkGO 2%N [(1%N, (Some (mkMO [1%N; 3%N] (0)%Z (0)%Z))); (2%N, (Some (mkMO [1%N] (0)%Z (0)%Z)))]) [] [3%N]) (mkGOut (0)%Z [(3%N, true)] (0)%Z) (mkGobs [mkOme 1%N 1%N [mkOep 1%N (0)%Z (0)%Z (-1)%Z; mkOep 3%N (1)%Z (0)%Z (-1)%Z]; mkOme 2%N 1%N [mkOep 1%N (0)%Z (0)%Z (-1)%Z]] [mkOpool 1%N 1%N true false; mkOpool 3%N 2%N true false] 2%N [(None, RPool 1%N 1%N true); ((Some 0%N), RPool 1%N 1%N true); ((Some 1%N), RPool 1%N 1%N true); ((Some 2%N), RPool 1%N 1%N true); ((Some 3%N), RPool 1%N 1%N true); ((Some 4%N), RPool 1%N 1%N true); ((Some 9%N), RPool 1%N 1%N true)] [1%N; 2%N] (2)%Z)] = true.
+  [mkGE (GUpdate (mkGO 1%N [(1%N, (Some (mkMO [1%N] (0)%Z (0)%Z))); (2%N, (Some (mkMO [2%N] (0)%Z (0)%Z)))]) [] [2%N; 1%N] []) (mkGOut (0)%Z [(2%N, true); (1%N, true)] (0)%Z) (mkGobs [mkOme 1%N 1%N [mkOep 1%N (0)%Z (0)%Z (-1)%Z]; mkOme 2%N 2%N [mkOep 2%N (0)%Z (0)%Z (-1)%Z]] [mkOpool 1%N 1%N true false; mkOpool 2%N 0%N true false] 1%N [(None, RPool 1%N 1%N true); ((Some 0%N), RPool 1%N 1%N true); ((Some 1%N), RPool 1%N 1%N true); ((Some 2%N), RPool 2%N 0%N true); ((Some 3%N), RPool 1%N 1%N true); ((Some 4%N), RPool 1%N 1%N true); ((Some 9%N), RPool 1%N 1%N true)] [0%N; 1%N] (2)%Z)
+   ; mkGE (GUpdate (mkGO 2%N [(1%N, (Some (mkMO [1%N; 3%N] (0)%Z (0)%Z))); (2%N, (Some (mkMO [1%N] (0)%Z (0)%Z)))]) [] [3%N] []) (mkGOut (0)%Z [(3%N, true)] (0)%Z) (mkGobs [mkOme 1%N 1%N [mkOep 1%N (0)%Z (0)%Z (-1)%Z; mkOep 3%N (1)%Z (0)%Z (-1)%Z]; mkOme 2%N 1%N [mkOep 1%N (0)%Z (0)%Z (-1)%Z]] [mkOpool 1%N 1%N true false; mkOpool 3%N 2%N true false] 2%N [(None, RPool 1%N 1%N true); ((Some 0%N), RPool 1%N 1%N true); ((Some 1%N), RPool 1%N 1%N true); ((Some 2%N), RPool 1%N 1%N true); ((Some 3%N), RPool 1%N 1%N true); ((Some 4%N), RPool 1%N 1%N true); ((Some 9%N), RPool 1%N 1%N true)] [1%N; 2%N] (2)%Z)] = true.
 Proof. vm_compute; reflexivity. Qed.
 
 (* ... and each of these hand-made corruptions of its last event is rejected. *)
 (* pool 2 (dial 0) is no longer mentioned but its connection is still open *)
 Example c15_bad_removed_pool_left_open : C15_ok
-  [mkGE (GUpdate (mkGO 1%N [(1%N, (Some (mkMO [1%N] (0)%Z (0)%Z))); (2%N, (Some (mkMO [2%N] (0)%Z (0)%Z)))]) [] [2%N; 1%N]) (mkGOut (0)%Z [(2%N, true); (1%N, true)] (0)%Z) (mkGobs [mkOme 1%N 1%N [mkOep 1%N (0)%Z (0)%Z (-1)%Z]; mkOme 2%N 2%N [mkOep 2%N (0)%Z (0)%Z (-1)%Z]] [mkOpool 1%N 1%N true false; mkOpool 2%N 0%N true false] 1%N [(None, RPool 1%N 1%N true); ((Some 0%N), RPool 1%N 1%N true); ((Some 1%N), RPool 1%N 1%N true); ((Some 2%N), RPool 2%N 0%N true); ((Some 3%N), RPool 1%N 1%N true); ((Some 4%N), RPool 1%N 1%N true); ((Some 9%N), RPool 1%N 1%N true)] [0%N; 1%N] (2)%Z)
-   ; mkGE (GUpdate (mkGO 2%N [(1%N, (Some (mkMO [1%N; 3%N] (0)%Z (0)%Z))); (2%N, (Some (mkMO [1%N] (0)%Z (0)%Z)))]) [] [3%N]) (mkGOut (0)%Z [(3%N, true)] (0)%Z) (mkGobs [mkOme 1%N 1%N [mkOep 1%N (0)%Z (0)%Z (-1)%Z; mkOep 3%N (1)%Z (0)%Z (-1)%Z]; mkOme 2%N 1%N [mkOep 1%N (0)%Z (0)%Z (-1)%Z]] [mkOpool 1%N 1%N true false; mkOpool 3%N 2%N true false] 2%N [(None, RPool 1%N 1%N true); ((Some 0%N), RPool 1%N 1%N true); ((Some 1%N), RPool 1%N 1%N true); ((Some 2%N), RPool 1%N 1%N true); ((Some 3%N), RPool 1%N 1%N true); ((Some 4%N), RPool 1%N 1%N true); ((Some 9%N), RPool 1%N 1%N true)] [0%N; 1%N; 2%N] (2)%Z)] = false.
+  [mkGE (GUpdate (mkGO 1%N [(1%N, (Some (mkMO [1%N] (0)%Z (0)%Z))); (2%N, (Some (mkMO [2%N] (0)%Z (0)%Z)))]) [] [2%N; 1%N] []) (mkGOut (0)%Z [(2%N, true); (1%N, true)] (0)%Z) (mkGobs [mkOme 1%N 1%N [mkOep 1%N (0)%Z (0)%Z (-1)%Z]; mkOme 2%N 2%N [mkOep 2%N (0)%Z (0)%Z (-1)%Z]] [mkOpool 1%N 1%N true false; mkOpool 2%N 0%N true false] 1%N [(None, RPool 1%N 1%N true); ((Some 0%N), RPool 1%N 1%N true); ((Some 1%N), RPool 1%N 1%N true); ((Some 2%N), RPool 2%N 0%N true); ((Some 3%N), RPool 1%N 1%N true); ((Some 4%N), RPool 1%N 1%N true); ((Some 9%N), RPool 1%N 1%N true)] [0%N; 1%N] (2)%Z)
+   ; mkGE (GUpdate (mkGO 2%N [(1%N, (Some (mkMO [1%N; 3%N] (0)%Z (0)%Z))); (2%N, (Some (mkMO [1%N] (0)%Z (0)%Z)))]) [] [3%N] []) (mkGOut (0)%Z [(3%N, true)] (0)%Z) (mkGobs [mkOme 1%N 1%N [mkOep 1%N (0)%Z (0)%Z (-1)%Z; mkOep 3%N (1)%Z (0)%Z (-1)%Z]; mkOme 2%N 1%N [mkOep 1%N (0)%Z (0)%Z (-1)%Z]] [mkOpool 1%N 1%N true false; mkOpool 3%N 2%N true false] 2%N [(None, RPool 1%N 1%N true); ((Some 0%N), RPool 1%N 1%N true); ((Some 1%N), RPool 1%N 1%N true); ((Some 2%N), RPool 1%N 1%N true); ((Some 3%N), RPool 1%N 1%N true); ((Some 4%N), RPool 1%N 1%N true); ((Some 9%N), RPool 1%N 1%N true)] [0%N; 1%N; 2%N] (2)%Z)] = false.
 Proof. vm_compute; reflexivity. Qed.
 
 (* the monitor of the removed pool is still running *)
 Example c15_bad_monitor_not_stopped : C15_ok
-  [mkGE (GUpdate (mkGO 1%N [(1%N, (Some (mkMO [1%N] (0)%Z (0)%Z))); (2%N, (Some (mkMO [2%N] (0)%Z (0)%Z)))]) [] [2%N; 1%N]) (mkGOut (0)%Z [(2%N, true); (1%N, true)] (0)%Z) (mkGobs [mkOme 1%N 1%N [mkOep 1%N (0)%Z (0)%Z (-1)%Z]; mkOme 2%N 2%N [mkOep 2%N (0)%Z (0)%Z (-1)%Z]] [mkOpool 1%N 1%N true false; mkOpool 2%N 0%N true false] 1%N [(None, RPool 1%N 1%N true); ((Some 0%N), RPool 1%N 1%N true); ((Some 1%N), RPool 1%N 1%N true); ((Some 2%N), RPool 2%N 0%N true); ((Some 3%N), RPool 1%N 1%N true); ((Some 4%N), RPool 1%N 1%N true); ((Some 9%N), RPool 1%N 1%N true)] [0%N; 1%N] (2)%Z)
-   ; mkGE (GUpdate (mkGO 2%N [(1%N, (Some (mkMO [1%N; 3%N] (0)%Z (0)%Z))); (2%N, (Some (mkMO [1%N] (0)%Z (0)%Z)))]) [] [3%N]) (mkGOut (0)%Z [(3%N, true)] (0)%Z) (mkGobs [mkOme 1%N 1%N [mkOep 1%N (0)%Z (0)%Z (-1)%Z; mkOep 3%N (1)%Z (0)%Z (-1)%Z]; mkOme 2%N 1%N [mkOep 1%N (0)%Z (0)%Z (-1)%Z]] [mkOpool 1%N 1%N true false; mkOpool 3%N 2%N true false] 2%N [(None, RPool 1%N 1%N true); ((Some 0%N), RPool 1%N 1%N true); ((Some 1%N), RPool 1%N 1%N true); ((Some 2%N), RPool 1%N 1%N true); ((Some 3%N), RPool 1%N 1%N true); ((Some 4%N), RPool 1%N 1%N true); ((Some 9%N), RPool 1%N 1%N true)] [1%N; 2%N] (3)%Z)] = false.
+  [mkGE (GUpdate (mkGO 1%N [(1%N, (Some (mkMO [1%N] (0)%Z (0)%Z))); (2%N, (Some (mkMO [2%N] (0)%Z (0)%Z)))]) [] [2%N; 1%N] []) (mkGOut (0)%Z [(2%N, true); (1%N, true)] (0)%Z) (mkGobs [mkOme 1%N 1%N [mkOep 1%N (0)%Z (0)%Z (-1)%Z]; mkOme 2%N 2%N [mkOep 2%N (0)%Z (0)%Z (-1)%Z]] [mkOpool 1%N 1%N true false; mkOpool 2%N 0%N true false] 1%N [(None, RPool 1%N 1%N true); ((Some 0%N), RPool 1%N 1%N true); ((Some 1%N), RPool 1%N 1%N true); ((Some 2%N), RPool 2%N 0%N true); ((Some 3%N), RPool 1%N 1%N true); ((Some 4%N), RPool 1%N 1%N true); ((Some 9%N), RPool 1%N 1%N true)] [0%N; 1%N] (2)%Z)
+   ; mkGE (GUpdate (mkGO 2%N [(1%N, (Some (mkMO [1%N; 3%N] (0)%Z (0)%Z))); (2%N, (Some (mkMO [1%N] (0)%Z (0)%Z)))]) [] [3%N] []) (mkGOut (0)%Z [(3%N, true)] (0)%Z) (mkGobs [mkOme 1%N 1%N [mkOep 1%N (0)%Z (0)%Z (-1)%Z; mkOep 3%N (1)%Z (0)%Z (-1)%Z]; mkOme 2%N 1%N [mkOep 1%N (0)%Z (0)%Z (-1)%Z]] [mkOpool 1%N 1%N true false; mkOpool 3%N 2%N true false] 2%N [(None, RPool 1%N 1%N true); ((Some 0%N), RPool 1%N 1%N true); ((Some 1%N), RPool 1%N 1%N true); ((Some 2%N), RPool 1%N 1%N true); ((Some 3%N), RPool 1%N 1%N true); ((Some 4%N), RPool 1%N 1%N true); ((Some 9%N), RPool 1%N 1%N true)] [1%N; 2%N] (3)%Z)] = false.
 Proof. vm_compute; reflexivity. Qed.
 
 (* the kept pool of endpoint 1 was dialled again (new object, dial 2) *)
 Example c15_bad_kept_pool_redialled : C15_ok
-  [mkGE (GUpdate (mkGO 1%N [(1%N, (Some (mkMO [1%N] (0)%Z (0)%Z))); (2%N, (Some (mkMO [2%N] (0)%Z (0)%Z)))]) [] [2%N; 1%N]) (mkGOut (0)%Z [(2%N, true); (1%N, true)] (0)%Z) (mkGobs [mkOme 1%N 1%N [mkOep 1%N (0)%Z (0)%Z (-1)%Z]; mkOme 2%N 2%N [mkOep 2%N (0)%Z (0)%Z (-1)%Z]] [mkOpool 1%N 1%N true false; mkOpool 2%N 0%N true false] 1%N [(None, RPool 1%N 1%N true); ((Some 0%N), RPool 1%N 1%N true); ((Some 1%N), RPool 1%N 1%N true); ((Some 2%N), RPool 2%N 0%N true); ((Some 3%N), RPool 1%N 1%N true); ((Some 4%N), RPool 1%N 1%N true); ((Some 9%N), RPool 1%N 1%N true)] [0%N; 1%N] (2)%Z)
-   ; mkGE (GUpdate (mkGO 2%N [(1%N, (Some (mkMO [1%N; 3%N] (0)%Z (0)%Z))); (2%N, (Some (mkMO [1%N] (0)%Z (0)%Z)))]) [] [3%N]) (mkGOut (0)%Z [(1%N, true); (3%N, true)] (0)%Z) (mkGobs [mkOme 1%N 1%N [mkOep 1%N (0)%Z (0)%Z (-1)%Z; mkOep 3%N (1)%Z (0)%Z (-1)%Z]; mkOme 2%N 1%N [mkOep 1%N (0)%Z (0)%Z (-1)%Z]] [mkOpool 1%N 2%N true false; mkOpool 3%N 3%N true false] 2%N [(None, RPool 1%N 1%N true); ((Some 0%N), RPool 1%N 1%N true); ((Some 1%N), RPool 1%N 1%N true); ((Some 2%N), RPool 1%N 1%N true); ((Some 3%N), RPool 1%N 1%N true); ((Some 4%N), RPool 1%N 1%N true); ((Some 9%N), RPool 1%N 1%N true)] [2%N; 3%N] (2)%Z)] = false.
+  [mkGE (GUpdate (mkGO 1%N [(1%N, (Some (mkMO [1%N] (0)%Z (0)%Z))); (2%N, (Some (mkMO [2%N] (0)%Z (0)%Z)))]) [] [2%N; 1%N] []) (mkGOut (0)%Z [(2%N, true); (1%N, true)] (0)%Z) (mkGobs [mkOme 1%N 1%N [mkOep 1%N (0)%Z (0)%Z (-1)%Z]; mkOme 2%N 2%N [mkOep 2%N (0)%Z (0)%Z (-1)%Z]] [mkOpool 1%N 1%N true false; mkOpool 2%N 0%N true false] 1%N [(None, RPool 1%N 1%N true); ((Some 0%N), RPool 1%N 1%N true); ((Some 1%N), RPool 1%N 1%N true); ((Some 2%N), RPool 2%N 0%N true); ((Some 3%N), RPool 1%N 1%N true); ((Some 4%N), RPool 1%N 1%N true); ((Some 9%N), RPool 1%N 1%N true)] [0%N; 1%N] (2)%Z)
+   ; mkGE (GUpdate (mkGO 2%N [(1%N, (Some (mkMO [1%N; 3%N] (0)%Z (0)%Z))); (2%N, (Some (mkMO [1%N] (0)%Z (0)%Z)))]) [] [3%N] []) (mkGOut (0)%Z [(1%N, true); (3%N, true)] (0)%Z) (mkGobs [mkOme 1%N 1%N [mkOep 1%N (0)%Z (0)%Z (-1)%Z; mkOep 3%N (1)%Z (0)%Z (-1)%Z]; mkOme 2%N 1%N [mkOep 1%N (0)%Z (0)%Z (-1)%Z]] [mkOpool 1%N 2%N true false; mkOpool 3%N 3%N true false] 2%N [(None, RPool 1%N 1%N true); ((Some 0%N), RPool 1%N 1%N true); ((Some 1%N), RPool 1%N 1%N true); ((Some 2%N), RPool 1%N 1%N true); ((Some 3%N), RPool 1%N 1%N true); ((Some 4%N), RPool 1%N 1%N true); ((Some 9%N), RPool 1%N 1%N true)] [2%N; 3%N] (2)%Z)] = false.
 Proof. vm_compute; reflexivity. Qed.
 
 (* defaultName still names MultiEndpoint 1 *)
 Example c15_bad_default_not_updated : C15_ok
-  [mkGE (GUpdate (mkGO 1%N [(1%N, (Some (mkMO [1%N] (0)%Z (0)%Z))); (2%N, (Some (mkMO [2%N] (0)%Z (0)%Z)))]) [] [2%N; 1%N]) (mkGOut (0)%Z [(2%N, true); (1%N, true)] (0)%Z) (mkGobs [mkOme 1%N 1%N [mkOep 1%N (0)%Z (0)%Z (-1)%Z]; mkOme 2%N 2%N [mkOep 2%N (0)%Z (0)%Z (-1)%Z]] [mkOpool 1%N 1%N true false; mkOpool 2%N 0%N true false] 1%N [(None, RPool 1%N 1%N true); ((Some 0%N), RPool 1%N 1%N true); ((Some 1%N), RPool 1%N 1%N true); ((Some 2%N), RPool 2%N 0%N true); ((Some 3%N), RPool 1%N 1%N true); ((Some 4%N), RPool 1%N 1%N true); ((Some 9%N), RPool 1%N 1%N true)] [0%N; 1%N] (2)%Z)
-   ; mkGE (GUpdate (mkGO 2%N [(1%N, (Some (mkMO [1%N; 3%N] (0)%Z (0)%Z))); (2%N, (Some (mkMO [1%N] (0)%Z (0)%Z)))]) [] [3%N]) (mkGOut (0)%Z [(3%N, true)] (0)%Z) (mkGobs [mkOme 1%N 1%N [mkOep 1%N (0)%Z (0)%Z (-1)%Z; mkOep 3%N (1)%Z (0)%Z (-1)%Z]; mkOme 2%N 1%N [mkOep 1%N (0)%Z (0)%Z (-1)%Z]] [mkOpool 1%N 1%N true false; mkOpool 3%N 2%N true false] 1%N [(None, RPool 1%N 1%N true); ((Some 0%N), RPool 1%N 1%N true); ((Some 1%N), RPool 1%N 1%N true); ((Some 2%N), RPool 1%N 1%N true); ((Some 3%N), RPool 1%N 1%N true); ((Some 4%N), RPool 1%N 1%N true); ((Some 9%N), RPool 1%N 1%N true)] [1%N; 2%N] (2)%Z)] = false.
+  [mkGE (GUpdate (mkGO 1%N [(1%N, (Some (mkMO [1%N] (0)%Z (0)%Z))); (2%N, (Some (mkMO [2%N] (0)%Z (0)%Z)))]) [] [2%N; 1%N] []) (mkGOut (0)%Z [(2%N, true); (1%N, true)] (0)%Z) (mkGobs [mkOme 1%N 1%N [mkOep 1%N (0)%Z (0)%Z (-1)%Z]; mkOme 2%N 2%N [mkOep 2%N (0)%Z (0)%Z (-1)%Z]] [mkOpool 1%N 1%N true false; mkOpool 2%N 0%N true false] 1%N [(None, RPool 1%N 1%N true); ((Some 0%N), RPool 1%N 1%N true); ((Some 1%N), RPool 1%N 1%N true); ((Some 2%N), RPool 2%N 0%N true); ((Some 3%N), RPool 1%N 1%N true); ((Some 4%N), RPool 1%N 1%N true); ((Some 9%N), RPool 1%N 1%N true)] [0%N; 1%N] (2)%Z)
+   ; mkGE (GUpdate (mkGO 2%N [(1%N, (Some (mkMO [1%N; 3%N] (0)%Z (0)%Z))); (2%N, (Some (mkMO [1%N] (0)%Z (0)%Z)))]) [] [3%N] []) (mkGOut (0)%Z [(3%N, true)] (0)%Z) (mkGobs [mkOme 1%N 1%N [mkOep 1%N (0)%Z (0)%Z (-1)%Z; mkOep 3%N (1)%Z (0)%Z (-1)%Z]; mkOme 2%N 1%N [mkOep 1%N (0)%Z (0)%Z (-1)%Z]] [mkOpool 1%N 1%N true false; mkOpool 3%N 2%N true false] 1%N [(None, RPool 1%N 1%N true); ((Some 0%N), RPool 1%N 1%N true); ((Some 1%N), RPool 1%N 1%N true); ((Some 2%N), RPool 1%N 1%N true); ((Some 3%N), RPool 1%N 1%N true); ((Some 4%N), RPool 1%N 1%N true); ((Some 9%N), RPool 1%N 1%N true)] [1%N; 2%N] (2)%Z)] = false.
 Proof. vm_compute; reflexivity. Qed.
 
 (* an unknown name is routed via MultiEndpoint 1's second endpoint instead of the default's current one *)
 Example c15_bad_unknown_name_random_me : C15_ok
-  [mkGE (GUpdate (mkGO 1%N [(1%N, (Some (mkMO [1%N] (0)%Z (0)%Z))); (2%N, (Some (mkMO [2%N] (0)%Z (0)%Z)))]) [] [2%N; 1%N]) (mkGOut (0)%Z [(2%N, true); (1%N, true)] (0)%Z) (mkGobs [mkOme 1%N 1%N [mkOep 1%N (0)%Z (0)%Z (-1)%Z]; mkOme 2%N 2%N [mkOep 2%N (0)%Z (0)%Z (-1)%Z]] [mkOpool 1%N 1%N true false; mkOpool 2%N 0%N true false] 1%N [(None, RPool 1%N 1%N true); ((Some 0%N), RPool 1%N 1%N true); ((Some 1%N), RPool 1%N 1%N true); ((Some 2%N), RPool 2%N 0%N true); ((Some 3%N), RPool 1%N 1%N true); ((Some 4%N), RPool 1%N 1%N true); ((Some 9%N), RPool 1%N 1%N true)] [0%N; 1%N] (2)%Z)
-   ; mkGE (GUpdate (mkGO 2%N [(1%N, (Some (mkMO [1%N; 3%N] (0)%Z (0)%Z))); (2%N, (Some (mkMO [1%N] (0)%Z (0)%Z)))]) [] [3%N]) (mkGOut (0)%Z [(3%N, true)] (0)%Z) (mkGobs [mkOme 1%N 1%N [mkOep 1%N (0)%Z (0)%Z (-1)%Z; mkOep 3%N (1)%Z (0)%Z (-1)%Z]; mkOme 2%N 1%N [mkOep 1%N (0)%Z (0)%Z (-1)%Z]] [mkOpool 1%N 1%N true false; mkOpool 3%N 2%N true false] 2%N [(None, RPool 1%N 1%N true); ((Some 0%N), RPool 1%N 1%N true); ((Some 1%N), RPool 1%N 1%N true); ((Some 2%N), RPool 1%N 1%N true); ((Some 3%N), RPool 1%N 1%N true); ((Some 4%N), RPool 1%N 1%N true); ((Some 9%N), RPool 3%N 2%N true)] [1%N; 2%N] (2)%Z)] = false.
+  [mkGE (GUpdate (mkGO 1%N [(1%N, (Some (mkMO [1%N] (0)%Z (0)%Z))); (2%N, (Some (mkMO [2%N] (0)%Z (0)%Z)))]) [] [2%N; 1%N] []) (mkGOut (0)%Z [(2%N, true); (1%N, true)] (0)%Z) (mkGobs [mkOme 1%N 1%N [mkOep 1%N (0)%Z (0)%Z (-1)%Z]; mkOme 2%N 2%N [mkOep 2%N (0)%Z (0)%Z (-1)%Z]] [mkOpool 1%N 1%N true false; mkOpool 2%N 0%N true false] 1%N [(None, RPool 1%N 1%N true); ((Some 0%N), RPool 1%N 1%N true); ((Some 1%N), RPool 1%N 1%N true); ((Some 2%N), RPool 2%N 0%N true); ((Some 3%N), RPool 1%N 1%N true); ((Some 4%N), RPool 1%N 1%N true); ((Some 9%N), RPool 1%N 1%N true)] [0%N; 1%N] (2)%Z)
+   ; mkGE (GUpdate (mkGO 2%N [(1%N, (Some (mkMO [1%N; 3%N] (0)%Z (0)%Z))); (2%N, (Some (mkMO [1%N] (0)%Z (0)%Z)))]) [] [3%N] []) (mkGOut (0)%Z [(3%N, true)] (0)%Z) (mkGobs [mkOme 1%N 1%N [mkOep 1%N (0)%Z (0)%Z (-1)%Z; mkOep 3%N (1)%Z (0)%Z (-1)%Z]; mkOme 2%N 1%N [mkOep 1%N (0)%Z (0)%Z (-1)%Z]] [mkOpool 1%N 1%N true false; mkOpool 3%N 2%N true false] 2%N [(None, RPool 1%N 1%N true); ((Some 0%N), RPool 1%N 1%N true); ((Some 1%N), RPool 1%N 1%N true); ((Some 2%N), RPool 1%N 1%N true); ((Some 3%N), RPool 1%N 1%N true); ((Some 4%N), RPool 1%N 1%N true); ((Some 9%N), RPool 3%N 2%N true)] [1%N; 2%N] (2)%Z)] = false.
 Proof. vm_compute; reflexivity. Qed.
 
 (* the pools are those of the previous options (endpoint 3 has no pool, endpoint 2 kept) *)
 Example c15_bad_valid_pools_from_old_options : C15_ok
-  [mkGE (GUpdate (mkGO 1%N [(1%N, (Some (mkMO [1%N] (0)%Z (0)%Z))); (2%N, (Some (mkMO [2%N] (0)%Z (0)%Z)))]) [] [2%N; 1%N]) (mkGOut (0)%Z [(2%N, true); (1%N, true)] (0)%Z) (mkGobs [mkOme 1%N 1%N [mkOep 1%N (0)%Z (0)%Z (-1)%Z]; mkOme 2%N 2%N [mkOep 2%N (0)%Z (0)%Z (-1)%Z]] [mkOpool 1%N 1%N true false; mkOpool 2%N 0%N true false] 1%N [(None, RPool 1%N 1%N true); ((Some 0%N), RPool 1%N 1%N true); ((Some 1%N), RPool 1%N 1%N true); ((Some 2%N), RPool 2%N 0%N true); ((Some 3%N), RPool 1%N 1%N true); ((Some 4%N), RPool 1%N 1%N true); ((Some 9%N), RPool 1%N 1%N true)] [0%N; 1%N] (2)%Z)
-   ; mkGE (GUpdate (mkGO 2%N [(1%N, (Some (mkMO [1%N; 3%N] (0)%Z (0)%Z))); (2%N, (Some (mkMO [1%N] (0)%Z (0)%Z)))]) [] [3%N]) (mkGOut (0)%Z [] (0)%Z) (mkGobs [mkOme 1%N 1%N [mkOep 1%N (0)%Z (0)%Z (-1)%Z; mkOep 3%N (1)%Z (0)%Z (-1)%Z]; mkOme 2%N 1%N [mkOep 1%N (0)%Z (0)%Z (-1)%Z]] [mkOpool 1%N 1%N true false; mkOpool 2%N 0%N true false] 2%N [(None, RPool 1%N 1%N true); ((Some 0%N), RPool 1%N 1%N true); ((Some 1%N), RPool 1%N 1%N true); ((Some 2%N), RPool 1%N 1%N true); ((Some 3%N), RPool 1%N 1%N true); ((Some 4%N), RPool 1%N 1%N true); ((Some 9%N), RPool 1%N 1%N true)] [0%N; 1%N] (2)%Z)] = false.
+  [mkGE (GUpdate (mkGO 1%N [(1%N, (Some (mkMO [1%N] (0)%Z (0)%Z))); (2%N, (Some (mkMO [2%N] (0)%Z (0)%Z)))]) [] [2%N; 1%N] []) (mkGOut (0)%Z [(2%N, true); (1%N, true)] (0)%Z) (mkGobs [mkOme 1%N 1%N [mkOep 1%N (0)%Z (0)%Z (-1)%Z]; mkOme 2%N 2%N [mkOep 2%N (0)%Z (0)%Z (-1)%Z]] [mkOpool 1%N 1%N true false; mkOpool 2%N 0%N true false] 1%N [(None, RPool 1%N 1%N true); ((Some 0%N), RPool 1%N 1%N true); ((Some 1%N), RPool 1%N 1%N true); ((Some 2%N), RPool 2%N 0%N true); ((Some 3%N), RPool 1%N 1%N true); ((Some 4%N), RPool 1%N 1%N true); ((Some 9%N), RPool 1%N 1%N true)] [0%N; 1%N] (2)%Z)
+   ; mkGE (GUpdate (mkGO 2%N [(1%N, (Some (mkMO [1%N; 3%N] (0)%Z (0)%Z))); (2%N, (Some (mkMO [1%N] (0)%Z (0)%Z)))]) [] [3%N] []) (mkGOut (0)%Z [] (0)%Z) (mkGobs [mkOme 1%N 1%N [mkOep 1%N (0)%Z (0)%Z (-1)%Z; mkOep 3%N (1)%Z (0)%Z (-1)%Z]; mkOme 2%N 1%N [mkOep 1%N (0)%Z (0)%Z (-1)%Z]] [mkOpool 1%N 1%N true false; mkOpool 2%N 0%N true false] 2%N [(None, RPool 1%N 1%N true); ((Some 0%N), RPool 1%N 1%N true); ((Some 1%N), RPool 1%N 1%N true); ((Some 2%N), RPool 1%N 1%N true); ((Some 3%N), RPool 1%N 1%N true); ((Some 4%N), RPool 1%N 1%N true); ((Some 9%N), RPool 1%N 1%N true)] [0%N; 1%N] (2)%Z)] = false.
 Proof. vm_compute; reflexivity. Qed.
 
 (* status sync: endpoint 1 is READY when MultiEndpoint 2 (containing it) is created *)
 Example c15_good_status_sync : C15_ok
-  [mkGE (GUpdate (mkGO 1%N [(1%N, (Some (mkMO [1%N] (0)%Z (0)%Z)))]) [] [1%N]) (mkGOut (0)%Z [(1%N, true)] (0)%Z) (mkGobs [mkOme 1%N 1%N [mkOep 1%N (0)%Z (0)%Z (-1)%Z]] [mkOpool 1%N 0%N true false] 1%N [(None, RPool 1%N 0%N true); ((Some 0%N), RPool 1%N 0%N true); ((Some 1%N), RPool 1%N 0%N true); ((Some 2%N), RPool 1%N 0%N true); ((Some 3%N), RPool 1%N 0%N true); ((Some 4%N), RPool 1%N 0%N true); ((Some 9%N), RPool 1%N 0%N true)] [0%N] (1)%Z)
+  [mkGE (GUpdate (mkGO 1%N [(1%N, (Some (mkMO [1%N] (0)%Z (0)%Z)))]) [] [1%N] []) (mkGOut (0)%Z [(1%N, true)] (0)%Z) (mkGobs [mkOme 1%N 1%N [mkOep 1%N (0)%Z (0)%Z (-1)%Z]] [mkOpool 1%N 0%N true false] 1%N [(None, RPool 1%N 0%N true); ((Some 0%N), RPool 1%N 0%N true); ((Some 1%N), RPool 1%N 0%N true); ((Some 2%N), RPool 1%N 0%N true); ((Some 3%N), RPool 1%N 0%N true); ((Some 4%N), RPool 1%N 0%N true); ((Some 9%N), RPool 1%N 0%N true)] [0%N] (1)%Z)
    ; mkGE (GMark true 1%N) (mkGOut (0)%Z [] (0)%Z) (mkGobs [mkOme 1%N 1%N [mkOep 1%N (0)%Z (0)%Z (-1)%Z]] [mkOpool 1%N 0%N true false] 1%N [(None, RPool 1%N 0%N true); ((Some 0%N), RPool 1%N 0%N true); ((Some 1%N), RPool 1%N 0%N true); ((Some 2%N), RPool 1%N 0%N true); ((Some 3%N), RPool 1%N 0%N true); ((Some 4%N), RPool 1%N 0%N true); ((Some 9%N), RPool 1%N 0%N true)] [0%N] (1)%Z)
    ; mkGE (GReady 1%N true) (mkGOut (0)%Z [] (0)%Z) (mkGobs [mkOme 1%N 1%N [mkOep 1%N (0)%Z (1)%Z (-1)%Z]] [mkOpool 1%N 0%N true true] 1%N [(None, RPool 1%N 0%N true); ((Some 0%N), RPool 1%N 0%N true); ((Some 1%N), RPool 1%N 0%N true); ((Some 2%N), RPool 1%N 0%N true); ((Some 3%N), RPool 1%N 0%N true); ((Some 4%N), RPool 1%N 0%N true); ((Some 9%N), RPool 1%N 0%N true)] [0%N] (1)%Z)
-   ; mkGE (GUpdate (mkGO 1%N [(1%N, (Some (mkMO [1%N] (0)%Z (0)%Z))); (2%N, (Some (mkMO [2%N; 1%N] (0)%Z (0)%Z)))]) [] [2%N]) (mkGOut (0)%Z [(2%N, true)] (0)%Z) (mkGobs [mkOme 1%N 1%N [mkOep 1%N (0)%Z (1)%Z (-1)%Z]; mkOme 2%N 1%N [mkOep 1%N (1)%Z (1)%Z (-1)%Z; mkOep 2%N (0)%Z (0)%Z (-1)%Z]] [mkOpool 1%N 0%N true true; mkOpool 2%N 1%N true false] 1%N [(None, RPool 1%N 0%N true); ((Some 0%N), RPool 1%N 0%N true); ((Some 1%N), RPool 1%N 0%N true); ((Some 2%N), RPool 1%N 0%N true); ((Some 3%N), RPool 1%N 0%N true); ((Some 4%N), RPool 1%N 0%N true); ((Some 9%N), RPool 1%N 0%N true)] [0%N; 1%N] (2)%Z)] = true.
+   ; mkGE (GUpdate (mkGO 1%N [(1%N, (Some (mkMO [1%N] (0)%Z (0)%Z))); (2%N, (Some (mkMO [2%N; 1%N] (0)%Z (0)%Z)))]) [] [2%N] []) (mkGOut (0)%Z [(2%N, true)] (0)%Z) (mkGobs [mkOme 1%N 1%N [mkOep 1%N (0)%Z (1)%Z (-1)%Z]; mkOme 2%N 1%N [mkOep 1%N (1)%Z (1)%Z (-1)%Z; mkOep 2%N (0)%Z (0)%Z (-1)%Z]] [mkOpool 1%N 0%N true true; mkOpool 2%N 1%N true false] 1%N [(None, RPool 1%N 0%N true); ((Some 0%N), RPool 1%N 0%N true); ((Some 1%N), RPool 1%N 0%N true); ((Some 2%N), RPool 1%N 0%N true); ((Some 3%N), RPool 1%N 0%N true); ((Some 4%N), RPool 1%N 0%N true); ((Some 9%N), RPool 1%N 0%N true)] [0%N; 1%N] (2)%Z)] = true.
 Proof. vm_compute; reflexivity. Qed.
 
 (* the new MultiEndpoint 2 has not been told that endpoint 1 is available *)
 Example c15_bad_status_not_synced : C15_ok
-  [mkGE (GUpdate (mkGO 1%N [(1%N, (Some (mkMO [1%N] (0)%Z (0)%Z)))]) [] [1%N]) (mkGOut (0)%Z [(1%N, true)] (0)%Z) (mkGobs [mkOme 1%N 1%N [mkOep 1%N (0)%Z (0)%Z (-1)%Z]] [mkOpool 1%N 0%N true false] 1%N [(None, RPool 1%N 0%N true); ((Some 0%N), RPool 1%N 0%N true); ((Some 1%N), RPool 1%N 0%N true); ((Some 2%N), RPool 1%N 0%N true); ((Some 3%N), RPool 1%N 0%N true); ((Some 4%N), RPool 1%N 0%N true); ((Some 9%N), RPool 1%N 0%N true)] [0%N] (1)%Z)
+  [mkGE (GUpdate (mkGO 1%N [(1%N, (Some (mkMO [1%N] (0)%Z (0)%Z)))]) [] [1%N] []) (mkGOut (0)%Z [(1%N, true)] (0)%Z) (mkGobs [mkOme 1%N 1%N [mkOep 1%N (0)%Z (0)%Z (-1)%Z]] [mkOpool 1%N 0%N true false] 1%N [(None, RPool 1%N 0%N true); ((Some 0%N), RPool 1%N 0%N true); ((Some 1%N), RPool 1%N 0%N true); ((Some 2%N), RPool 1%N 0%N true); ((Some 3%N), RPool 1%N 0%N true); ((Some 4%N), RPool 1%N 0%N true); ((Some 9%N), RPool 1%N 0%N true)] [0%N] (1)%Z)
    ; mkGE (GMark true 1%N) (mkGOut (0)%Z [] (0)%Z) (mkGobs [mkOme 1%N 1%N [mkOep 1%N (0)%Z (0)%Z (-1)%Z]] [mkOpool 1%N 0%N true false] 1%N [(None, RPool 1%N 0%N true); ((Some 0%N), RPool 1%N 0%N true); ((Some 1%N), RPool 1%N 0%N true); ((Some 2%N), RPool 1%N 0%N true); ((Some 3%N), RPool 1%N 0%N true); ((Some 4%N), RPool 1%N 0%N true); ((Some 9%N), RPool 1%N 0%N true)] [0%N] (1)%Z)
    ; mkGE (GReady 1%N true) (mkGOut (0)%Z [] (0)%Z) (mkGobs [mkOme 1%N 1%N [mkOep 1%N (0)%Z (1)%Z (-1)%Z]] [mkOpool 1%N 0%N true true] 1%N [(None, RPool 1%N 0%N true); ((Some 0%N), RPool 1%N 0%N true); ((Some 1%N), RPool 1%N 0%N true); ((Some 2%N), RPool 1%N 0%N true); ((Some 3%N), RPool 1%N 0%N true); ((Some 4%N), RPool 1%N 0%N true); ((Some 9%N), RPool 1%N 0%N true)] [0%N] (1)%Z)
-   ; mkGE (GUpdate (mkGO 1%N [(1%N, (Some (mkMO [1%N] (0)%Z (0)%Z))); (2%N, (Some (mkMO [2%N; 1%N] (0)%Z (0)%Z)))]) [] [2%N]) (mkGOut (0)%Z [(2%N, true)] (0)%Z) (mkGobs [mkOme 1%N 1%N [mkOep 1%N (0)%Z (1)%Z (-1)%Z]; mkOme 2%N 2%N [mkOep 1%N (1)%Z (0)%Z (-1)%Z; mkOep 2%N (0)%Z (0)%Z (-1)%Z]] [mkOpool 1%N 0%N true true; mkOpool 2%N 1%N true false] 1%N [(None, RPool 1%N 0%N true); ((Some 0%N), RPool 1%N 0%N true); ((Some 1%N), RPool 1%N 0%N true); ((Some 2%N), RPool 2%N 1%N true); ((Some 3%N), RPool 1%N 0%N true); ((Some 4%N), RPool 1%N 0%N true); ((Some 9%N), RPool 1%N 0%N true)] [0%N; 1%N] (2)%Z)] = false.
+   ; mkGE (GUpdate (mkGO 1%N [(1%N, (Some (mkMO [1%N] (0)%Z (0)%Z))); (2%N, (Some (mkMO [2%N; 1%N] (0)%Z (0)%Z)))]) [] [2%N] []) (mkGOut (0)%Z [(2%N, true)] (0)%Z) (mkGobs [mkOme 1%N 1%N [mkOep 1%N (0)%Z (1)%Z (-1)%Z]; mkOme 2%N 2%N [mkOep 1%N (1)%Z (0)%Z (-1)%Z; mkOep 2%N (0)%Z (0)%Z (-1)%Z]] [mkOpool 1%N 0%N true true; mkOpool 2%N 1%N true false] 1%N [(None, RPool 1%N 0%N true); ((Some 0%N), RPool 1%N 0%N true); ((Some 1%N), RPool 1%N 0%N true); ((Some 2%N), RPool 2%N 1%N true); ((Some 3%N), RPool 1%N 0%N true); ((Some 4%N), RPool 1%N 0%N true); ((Some 9%N), RPool 1%N 0%N true)] [0%N; 1%N] (2)%Z)] = false.
 Proof. vm_compute; reflexivity. Qed.
 
 (* a connectivity change is not delivered to MultiEndpoint 1 *)
 Example c15_bad_ready_not_delivered : C15_ok
-  [mkGE (GUpdate (mkGO 1%N [(1%N, (Some (mkMO [1%N] (0)%Z (0)%Z)))]) [] [1%N]) (mkGOut (0)%Z [(1%N, true)] (0)%Z) (mkGobs [mkOme 1%N 1%N [mkOep 1%N (0)%Z (0)%Z (-1)%Z]] [mkOpool 1%N 0%N true false] 1%N [(None, RPool 1%N 0%N true); ((Some 0%N), RPool 1%N 0%N true); ((Some 1%N), RPool 1%N 0%N true); ((Some 2%N), RPool 1%N 0%N true); ((Some 3%N), RPool 1%N 0%N true); ((Some 4%N), RPool 1%N 0%N true); ((Some 9%N), RPool 1%N 0%N true)] [0%N] (1)%Z)
+  [mkGE (GUpdate (mkGO 1%N [(1%N, (Some (mkMO [1%N] (0)%Z (0)%Z)))]) [] [1%N] []) (mkGOut (0)%Z [(1%N, true)] (0)%Z) (mkGobs [mkOme 1%N 1%N [mkOep 1%N (0)%Z (0)%Z (-1)%Z]] [mkOpool 1%N 0%N true false] 1%N [(None, RPool 1%N 0%N true); ((Some 0%N), RPool 1%N 0%N true); ((Some 1%N), RPool 1%N 0%N true); ((Some 2%N), RPool 1%N 0%N true); ((Some 3%N), RPool 1%N 0%N true); ((Some 4%N), RPool 1%N 0%N true); ((Some 9%N), RPool 1%N 0%N true)] [0%N] (1)%Z)
    ; mkGE (GMark true 1%N) (mkGOut (0)%Z [] (0)%Z) (mkGobs [mkOme 1%N 1%N [mkOep 1%N (0)%Z (0)%Z (-1)%Z]] [mkOpool 1%N 0%N true false] 1%N [(None, RPool 1%N 0%N true); ((Some 0%N), RPool 1%N 0%N true); ((Some 1%N), RPool 1%N 0%N true); ((Some 2%N), RPool 1%N 0%N true); ((Some 3%N), RPool 1%N 0%N true); ((Some 4%N), RPool 1%N 0%N true); ((Some 9%N), RPool 1%N 0%N true)] [0%N] (1)%Z)
    ; mkGE (GReady 1%N true) (mkGOut (0)%Z [] (0)%Z) (mkGobs [mkOme 1%N 1%N [mkOep 1%N (0)%Z (0)%Z (-1)%Z]] [mkOpool 1%N 0%N true true] 1%N [(None, RPool 1%N 0%N true); ((Some 0%N), RPool 1%N 0%N true); ((Some 1%N), RPool 1%N 0%N true); ((Some 2%N), RPool 1%N 0%N true); ((Some 3%N), RPool 1%N 0%N true); ((Some 4%N), RPool 1%N 0%N true); ((Some 9%N), RPool 1%N 0%N true)] [0%N] (1)%Z)
-   ; mkGE (GUpdate (mkGO 1%N [(1%N, (Some (mkMO [1%N] (0)%Z (0)%Z))); (2%N, (Some (mkMO [2%N; 1%N] (0)%Z (0)%Z)))]) [] [2%N]) (mkGOut (0)%Z [(2%N, true)] (0)%Z) (mkGobs [mkOme 1%N 1%N [mkOep 1%N (0)%Z (1)%Z (-1)%Z]; mkOme 2%N 1%N [mkOep 1%N (1)%Z (1)%Z (-1)%Z; mkOep 2%N (0)%Z (0)%Z (-1)%Z]] [mkOpool 1%N 0%N true true; mkOpool 2%N 1%N true false] 1%N [(None, RPool 1%N 0%N true); ((Some 0%N), RPool 1%N 0%N true); ((Some 1%N), RPool 1%N 0%N true); ((Some 2%N), RPool 1%N 0%N true); ((Some 3%N), RPool 1%N 0%N true); ((Some 4%N), RPool 1%N 0%N true); ((Some 9%N), RPool 1%N 0%N true)] [0%N; 1%N] (2)%Z)] = false.
+   ; mkGE (GUpdate (mkGO 1%N [(1%N, (Some (mkMO [1%N] (0)%Z (0)%Z))); (2%N, (Some (mkMO [2%N; 1%N] (0)%Z (0)%Z)))]) [] [2%N] []) (mkGOut (0)%Z [(2%N, true)] (0)%Z) (mkGobs [mkOme 1%N 1%N [mkOep 1%N (0)%Z (1)%Z (-1)%Z]; mkOme 2%N 1%N [mkOep 1%N (1)%Z (1)%Z (-1)%Z; mkOep 2%N (0)%Z (0)%Z (-1)%Z]] [mkOpool 1%N 0%N true true; mkOpool 2%N 1%N true false] 1%N [(None, RPool 1%N 0%N true); ((Some 0%N), RPool 1%N 0%N true); ((Some 1%N), RPool 1%N 0%N true); ((Some 2%N), RPool 1%N 0%N true); ((Some 3%N), RPool 1%N 0%N true); ((Some 4%N), RPool 1%N 0%N true); ((Some 9%N), RPool 1%N 0%N true)] [0%N; 1%N] (2)%Z)] = false.
 Proof. vm_compute; reflexivity. Qed.
